@@ -18,7 +18,7 @@ REQUIRED_MONITORS = ["T:v_P", "T:a_P", "W:J_P", "EQ:kappa_P", "T:B_Omega", "T:B_
 META = {
     "level_text": "Exploration: all kinematic methods of the real RigidBody / PointMass / Frame (and meshed wrappers) are evaluated at seeded hostile states and decided by time-derivative (T), velocity-Jacobian (W) and finite-difference (D) oracles. Held on the states generated.",
     "level_note": "float64; finite-difference oracles with measured uncertainty (noisy comparisons are undecided, not held); frames supplied with exact derivatives.",
-    "technique": "runtime return-value monitors with T/D/W finite-difference oracles",
+    "technique": "runtime return-value monitors with T/D/W finite-difference oracles + representation twins",
 }
 KINDS = ["rigid", "rigid", "rigid", "meshed", "point", "frame", "frame"]
 
